@@ -641,6 +641,8 @@ def programs(draw, min_len=1, max_len=6, kinds=None, pkg=None, favour_mutators=T
             # the source stays in the package: edit, in place, exactly the field the join aggregated
             j = steps[-1]
             fname = list(j['fields'].values())[0]['name']
+            if j['source_key'] != ['#'] and draw(st.integers(0, 2)) == 0:
+                fname = j['source_key'][0]           # ... or the key field the source rows were indexed under
             ftype = next((f['type'] for r in state if r['name'] == j['source'] for f in r['fields'] if f['name'] == fname), None)
             if ftype in ('integer', 'string'):
                 spec = {'k': 'row_fn', 'fn': 'inc_int' if ftype == 'integer' else 'upper', 'field': fname,
